@@ -151,6 +151,7 @@ def run_model(cases: List[Case], fuel: int = 3000, sem: bool = False, jobs: int 
         ncur += 1
     if cur:
         chunks.append(cur)
+    common.driver_path()      # build the driver (once) before the worker threads use it
     with ThreadPoolExecutor(max_workers=jobs) as ex:
         outs = list(ex.map(_model_chunk, chunks))
     traces: Dict[str, Trace] = {}
